@@ -16,11 +16,13 @@ EXPLANATION = (
     'load of its key or CancelledError if itself was cancelled; every lookup finishes once loads complete. Two sub-families '
     '(cancels hitting only load leaders / only followers) are run separately so each mechanism is its own obligation; counterexamples are re-run on the stock '
     'asyncio loop against the real class. Only "Confirmed over all paths" discharges a shard. Bounded: 2 keys, 1..2 slots; '
-    'quick 2 tasks k=4 steps; thorough 3 tasks k=4 and 2 tasks k=5.'
+    'quick 2 tasks k=4 steps; thorough 3 tasks k=4 and 2 tasks k=5. A sequential family (no overlap between lookups: each load is '
+    'completed or failed at once; keys, clock increments, failures symbolic) goes deeper: 5 steps quick, 6 thorough.'
 )
 SRC = 'gear/gear/time_limited_max_size_cache.py'
 HM = 'harness.C26_cache'
-MODES = {0: 'bounded / fresh / single-flight / fails-only-own-caller / live over all schedules',
+MODES = {3: 'bounded / fresh / right key / errors over sequential histories (each lookup finished before the next step)',
+         0: 'bounded / fresh / single-flight / fails-only-own-caller / live over all schedules',
          1: 'cancelling the leader of a shared load does not fail the other callers (cancels hit load leaders only)',
          2: 'cancelling a follower of a shared load does not fail the other callers (cancels hit followers only)'}
 
@@ -34,6 +36,8 @@ def params(k, NT):
 
 
 def describe(a, meta):
+    if meta.get('seq'):
+        return describe_seq(a, meta)
     k = meta['k']
     names = {1: 'complete-oldest', 2: 'complete-newest', 3: 'fail-oldest', 4: 'fail-newest'}
     steps = ['lookup(key0)']
@@ -44,6 +48,31 @@ def describe(a, meta):
     dr = [a[f'd{i}'] for i in range(k - 1)] + [True]
     return (f'TimeLimitedMaxSizeCache(num_slots={a["slots"]}, lifetime={a["lifetime"]}) schedule: '
             + '; '.join(s + ('+drain' if d else '') for s, d in zip(steps, dr)))
+
+
+def params_seq(k):
+    H = importlib.import_module(HM)
+    n = range(1, k)
+    return ([('slots', 'int', 1, 2), ('lifetime', 'int', 1, H.LMAX)] + [(f'a{i}', 'bool') for i in n]
+            + [(f'key{i}', 'int', 0, H.NK - 1) for i in n] + [(f'dt{i}', 'int', 0, H.DTMAX) for i in n]
+            + [(f'f{i}', 'bool') for i in range(k)])
+
+
+def group_seq(k, shard_on):
+    """sequential family: every lookup is finished (load completed or failed at once) before the next step"""
+    return (3, sched.gen_shards(f'C26_seqk{k}', HM, params_seq(k), shard_on, entry=(f'checkseq_{k}', f'reachseq_{k}'),
+                                prefix=f'seqk{k}_', meta={'nt': k, 'k': k, 'mode': 0, 'seq': True})[1])
+
+
+def describe_seq(a, meta):
+    k = meta['k']
+    steps = []
+    for i in range(k):
+        if i > 0 and a[f'a{i}']:
+            steps.append(f'advance+{a[f"dt{i}"]}')
+        else:
+            steps.append(f'lookup(key{a[f"key{i}"] if i else 0})' + ('!load-fails' if a[f'f{i}'] else ''))
+    return (f'TimeLimitedMaxSizeCache(num_slots={a["slots"]}, lifetime={a["lifetime"]}) sequential history: ' + '; '.join(steps))
 
 
 def group(NT, k, mode, shard_on):
@@ -63,13 +92,17 @@ def run(R):
     A2 = list(range(0, 8))
     if R.tier == 'quick':
         pct = 240
-        groups = [group(2, 4, 0, {'a1': A1, 'd0': B, 'd1': B}), group(2, 3, 1, {'d0': B}), group(2, 3, 2, {'d0': B})]
-        R.bounds = {'keys': 2, 'num_slots': '1..2', 'lifetime': '1..4', 'tasks': 2, 'steps': 'k=4', 'clock increment': '0..6'}
+        groups = [group(2, 4, 0, {'a1': A1, 'd0': B, 'd1': B}), group(2, 3, 1, {'d0': B}), group(2, 3, 2, {'d0': B}),
+                  group_seq(5, {'a1': B, 'a2': B, 'slots': [1, 2]})]
+        R.bounds = {'keys': 2, 'num_slots': '1..2', 'lifetime': '1..4', 'tasks': 2, 'steps': 'k=4', 'clock increment': '0..6',
+                    'sequential family': '5 steps (lookups finished one after another, loads succeed or fail, clock advances 0..6)'}
     else:
         pct = 1300
         groups = [group(3, 4, 0, {'a1': A1, 'd0': B, 'd1': B, 'slots': [1, 2]}), group(2, 5, 0, {'a1': A1, 'a2': A2, 'd0': B, 'd1': B}),
-                  group(3, 3, 1, {'d0': B}), group(3, 3, 2, {'d0': B}), group(2, 4, 1, {'d0': B, 'd1': B}), group(2, 4, 2, {'d0': B, 'd1': B})]
-        R.bounds = {'keys': 2, 'num_slots': '1..2', 'lifetime': '1..4', 'shapes': '(3 tasks, k=4), (2 tasks, k=5)', 'clock increment': '0..6'}
+                  group(3, 3, 1, {'d0': B}), group(3, 3, 2, {'d0': B}), group(2, 4, 1, {'d0': B, 'd1': B}), group(2, 4, 2, {'d0': B, 'd1': B}),
+                  group_seq(6, {'a1': B, 'a2': B, 'a3': B, 'slots': [1, 2], 'key1': [0, 1]})]
+        R.bounds = {'keys': 2, 'num_slots': '1..2', 'lifetime': '1..4', 'shapes': '(3 tasks, k=4), (2 tasks, k=5)', 'clock increment': '0..6',
+                    'sequential family': '6 steps'}
     R.assume('prometheus_client metrics are inert; prometheus_async.aio.time(metric, future) (package absent from the sandbox) is '
              'modelled as a coroutine that awaits the future and observes in a finally block',
              'time.monotonic_ns is the director clock (integers); it advances only at quiescent points (callback latency = 0 '
